@@ -26,11 +26,21 @@ theorem etu_sound (o : EOracle) (fuel : Nat) (c : Comp) (s' : ESt)
   simp only [EInv, hp, omin_none_right] at hi
   exact hi
 
-/-- The firefly template on a concrete execution of the model: an evaluation (value 1) made inside the
-position update is overwritten by the boundary repair; the reported best (5) is not the minimum (1). -/
+/-- The analysis refuses every tree containing a component that evaluates moved individuals in place
+(`FireflyPositionsUpdate` may evaluate one individual several times and keeps only the last value), even
+when a best-update follows immediately. -/
+theorem eval_in_place_refused (sh p : Bool) : etuLeaf sh .FireflyPositionsUpdate p = none := rfl
+
+example : evalThenUpdate (.seq (.cons (.loop (.seq (.cons (.leaf .FireflyPositionsUpdate)
+    (.cons (.leaf .BestIndividualUpdate) .nil)))) .nil)) = false := by decide
+
+/-- The firefly template on a concrete execution of the model: inside the position update the objective
+returns 1 for an intermediate position of an individual that ends the component with value 4, and the
+boundary repair then moves everybody to positions worth 9; the reported best (9) is not the minimum returned (1). -/
 theorem fa_etu_violates :
-    (runE ⟨fun t => t == 3, fun _ => false, fun t => if t == 4 then some 1 else some 5⟩ 100 real_fa_v0).map
-      (fun s => (s.best, s.seen)) = some (some 5, some 1) := by decide
+    (runE ⟨fun t => t == 3, fun _ => false,
+           fun t => if t == 4 then some 1 else if t == 5 then some 4 else some 9⟩ 100 real_fa_v0).map
+      (fun s => (s.best, s.seen)) = some (some 9, some 1) := by decide
 
 /-! Non-vacuity -/
 example : evalThenUpdate real_pso_v0 = true := by decide
